@@ -378,6 +378,16 @@ func recipes() map[string][]Recipe {
 	// ---- shell-style builtins
 	add("builtin.cat", want(ev("", "rel", "", `r := cat(`+q(relA)+`)`), virtA))
 	add("builtin.cat", want(ev("", "two-abs", "", `r := cat(`+q(abs(relA))+`, `+q(abs(relB))+`)`), virtA+virtB))
+	// wildcard characters in a name are not expanded by anything: the name is looked up literally in the
+	// script's OS (a real glob would list the real tree and name its real-only file)
+	for i, pat := range []string{relDir + "/VERIFSENT_*.txt", relDir + "/VERIFSENT_?.txt", "VERIFSENT_t*/*", relDir + "/[V]ERIFSENT_ronly.txt", "*/*only*"} {
+		c := `func(e) { return "caught: " + string(e) }`
+		add("builtin.cat", has(ev("", fmt.Sprintf("wild-%d", i), "", `r := try(func() { return cat(`+q(pat)+`) }, `+c+`)`), "caught: "))
+		add("builtin.ls", has(ev("", fmt.Sprintf("wild-%d", i), "", `r := try(func() { return ls(`+q(pat)+`) }, `+c+`)`), "caught: "))
+		add("os.read_file", has(ev("", fmt.Sprintf("wild-%d", i), "", `r := try(func() { return string(os.read_file(`+q(pat)+`)) }, `+c+`)`), "caught: "))
+		add("os.read_dir", has(ev("", fmt.Sprintf("wild-%d", i), "", `r := try(func() { return os.read_dir(`+q(pat)+`) }, `+c+`)`), "caught: "))
+		add("os.stat", has(ev("", fmt.Sprintf("wild-%d", i), "", `r := try(func() { return os.stat(`+q(pat)+`) }, `+c+`)`), "caught: "))
+	}
 	add("builtin.cd", post(ev("", "rel", "", `r := cd(`+q(relDir)+`)`), "cwd", relDir))
 	add("builtin.cd", post(ev("", "abs", "", `r := cd(`+q(abs(relSub))+`)`), "cwd", abs(relSub)))
 	add("builtin.cp", post(ev("", "rel", "", `r := cp(`+q(relA)+`, `+q(relNew)+`)`), "+"+vpath(relNew), virtA))
